@@ -14,7 +14,11 @@ def setup(k):
     root = f"/tmp/sr{k}"
     shutil.rmtree(root, ignore_errors=True); os.makedirs(root)
     assert sh(f"git clone -q /repo {root}/repo").returncode == 0
-    assert sh(f"rsync -a --exclude .git --exclude .run --exclude replays /verif/ {root}/verif/").returncode == 0
+    # the COMMITTED /verif (so that uncommitted work in progress, e.g. a proof agent's half-edited Lean files, cannot leak in), plus
+    # the ignored build outputs as a cache
+    os.makedirs(f"{root}/verif")
+    assert sh(f"git -C /verif archive HEAD | tar -x -C {root}/verif").returncode == 0
+    sh(f"rsync -a /verif/lean/.lake {root}/verif/lean/ 2>/dev/null; rsync -a /verif/harness/target {root}/verif/harness/ 2>/dev/null")
     os.makedirs(f"{root}/verif/.run", exist_ok=True)
     sh(f"sed -i 's#path = \"/repo\"#path = \"{root}/repo\"#' {root}/verif/harness/Cargo.toml")
     sh(f"sed -i 's#lock_src = \"/repo/Cargo.lock\"#lock_src = \"{root}/repo/Cargo.lock\"#' {root}/verif/check")
